@@ -6,7 +6,7 @@ FACTOR_SETS = ["2 1 0 3", "0", "1", "3 0 2", "1 2", "2", "1 0", "4 1"]
 MODES = [0, 0, 0, 1, 1, 2, 3, 4]
 
 def build_lines(rng, name, B, D, *, nsub=None, ops=True, depth=None, same_structure=False, edition=None, template=None,
-                modes=None):
+                modes=None, same_fill=False):
     """returns (lines, meta): lines build the dataset; meta records template, edition, subsets"""
     ed = edition or rng.choice([2, 3, 4, 4])
     t = template or templates.gen_template(rng, B, D, depth=depth if depth is not None else rng.choice([0, 1, 2, 2, 3]),
@@ -23,6 +23,10 @@ def build_lines(rng, name, B, D, *, nsub=None, ops=True, depth=None, same_struct
             ls += ["ss.setfactors %d %s" % (k, fs), "ss.expand %d" % k]
         seed = rng.randrange(1, 2 ** 31)
         mode = rng.choice(modes or MODES)
+        if same_fill and seeds:
+            # identical subsets: the only way two subsets agree on their new reference values (2 03), which
+            # compressed form requires
+            seed, mode = seeds[0]
         seeds.append((seed, mode))
         ls.append("ss.fill %d %d %d" % (k, seed, mode))
     if any(d // 1000 == 203 for d in t):
